@@ -35,6 +35,15 @@ int LLVMFuzzerTestOneInput (const uint8_t *data, size_t size)
   }
   free (progs);
   if (errs) orc_parse_error_freev (errs);
+  if ((h & 3) == 0) {
+    /* the older entry point that renders the error records into a log string */
+    static char marker[] = ""; char *log = marker; OrcProgram **p2 = NULL; int n2 = orc_parse_full (text, &p2, &log);
+    if (n2 != np) { fprintf (stderr, "C14-ORACLE: orc_parse_full returned %d programs, orc_parse_code %d\n", n2, np); abort (); }
+    if (ne > 0 && (!log || log == marker)) { fprintf (stderr, "C14-ORACLE: orc_parse_full produced no log for %d errors\n", ne); abort (); }
+    if (log && log != marker) free (log);
+    for (i = 0; i < n2; i++) if (p2[i]) orc_program_free (p2[i]);
+    free (p2);
+  }
   free (text);
   return 0;
 }
